@@ -3,6 +3,7 @@
 package main
 
 import (
+	"bytes"
 	"errors"
 	"fmt"
 	"hash/crc32"
@@ -25,6 +26,11 @@ var (
 	errInjConnClose  = errors.New("injected connection close error")
 	errInjAgentClose = errors.New("injected agent close error")
 	errInjAgentStart = errors.New("injected agent start error")
+	// the same faults with errors whose IDENTITY means something elsewhere: closing a connection that is closed
+	// already, an agent closed by its owner first, a write that runs into its deadline
+	errInjConnCloseSentinel  error = &net.OpError{Op: "close", Net: "udp", Err: net.ErrClosed}
+	errInjAgentCloseSentinel       = fmt.Errorf("agent: %w", stun.ErrAgentClosed)
+	errInjectedWriteTimeout  error = &net.OpError{Op: "write", Net: "udp", Err: os.ErrDeadlineExceeded}
 )
 
 var cliT0 = time.Date(2024, 6, 1, 12, 0, 0, 0, time.UTC)
@@ -39,8 +45,10 @@ type cliOpts struct {
 	AgentCloseErr bool  `json:"agent_close_err,omitempty"`
 	MsgSize       []int `json:"msg_size,omitempty"` // per transaction slot, 0 = 20 bytes
 	PoolFanout    bool  `json:"pool_fanout,omitempty"`
-	Reentrant     bool  `json:"reentrant,omitempty"`   // handlers call back into the client (Indicate, Start, Close) when they get an error
-	StallWrite    bool  `json:"stall_write,omitempty"` // Write blocks until the connection is closed, then fails (TCP back pressure)
+	Reentrant     bool  `json:"reentrant,omitempty"`     // handlers call back into the client (Indicate, Start, Close) when they get an error
+	StallWrite    bool  `json:"stall_write,omitempty"`   // Write blocks until the connection is closed, then fails (TCP back pressure)
+	SentinelErrs  bool  `json:"sentinel_errs,omitempty"` // the injected close errors wrap net.ErrClosed / ErrAgentClosed instead of being plain errors
+	ClockOffset   int64 `json:"clock_offset,omitempty"`  // ns added to the start of the virtual clock (deadlines then fall off every round number)
 	MaxAttempts   int   `json:"-"`
 }
 
@@ -63,6 +71,12 @@ func (e cliEv) String() string {
 		if e.Arg == 3 {
 			return fmt.Sprintf("resp(%c,Data indication)", 'A'+e.I)
 		}
+		if e.Arg == 4 {
+			return fmt.Sprintf("resp(%c,28 trailing bytes)", 'A'+e.I)
+		}
+		if e.Arg == 5 {
+			return fmt.Sprintf("resp(%c,method 0x123)", 'A'+e.I)
+		}
 		return fmt.Sprintf("resp(%c)", 'A'+e.I)
 	case "start", "do", "dup", "overwrite", "indicate":
 		if e.I >= 10 {
@@ -75,7 +89,7 @@ func (e cliEv) String() string {
 		}
 		return "unknown"
 	case "tick":
-		return "tick(" + []string{"at-deadline", "just-after-deadline", "far", "late: deadline+0.3 rto", "early: half-way to the deadline"}[e.Arg] + ")"
+		return "tick(" + []string{"at-deadline", "just-after-deadline", "far", "late: deadline+0.3 rto", "early: half-way to the deadline", "1 ns before the deadline"}[e.Arg] + ")"
 	case "garbage":
 		return "garbage(" + []string{"7 bytes", "bad cookie", "1025 bytes (truncated by the reader)", "attribute overrun", "valid header, body cut short"}[e.Arg] + ")"
 	case "failagent":
@@ -229,6 +243,7 @@ type vConn struct {
 	closed    bool
 	closeN    int
 	failNext  bool
+	failKind  int               // 0 plain error, 1 a net.Error that reports Timeout()
 	written   map[[12]byte]bool // ids carried by a successful write (causality for responses)
 	idleTimeo bool              // Read returns a timeout when nothing else can move (NoConnClose scenarios)
 }
@@ -263,6 +278,9 @@ func (c *vConn) Write(p []byte) (int, error) {
 	case c.failNext:
 		c.failNext = false
 		err = errInjectedWrite
+		if c.failKind == 1 {
+			err = errInjectedWriteTimeout
+		}
 	}
 	kind := "write"
 	if c == c.w.conn2 {
@@ -288,6 +306,9 @@ func (c *vConn) Close() error {
 	c.closed = true
 	c.w.rec(obsRec{Kind: "conn-close", Inst: -1})
 	if c.w.sc.Opts.ConnCloseErr {
+		if c.w.sc.Opts.SentinelErrs {
+			return errInjConnCloseSentinel
+		}
 		return errInjConnClose
 	}
 	return nil
@@ -344,6 +365,9 @@ func (a *vAgent) Process(m *stun.Message) error { return a.a.Process(m) }
 func (a *vAgent) Close() error {
 	err := a.a.Close()
 	if err == nil && a.w.sc.Opts.AgentCloseErr {
+		if a.w.sc.Opts.SentinelErrs {
+			return errInjAgentCloseSentinel
+		}
 		return errInjAgentClose
 	}
 	return err
@@ -492,6 +516,9 @@ func cliResponseSized(slot int, variant int, size int) []byte {
 	if size == 3 {
 		m.Type = stun.NewType(stun.MethodData, stun.ClassIndication) // any message with the id belongs to the transaction
 	}
+	if size == 5 {
+		m.Type = stun.NewType(stun.Method(0x123), stun.ClassSuccessResponse) // a method outside the registered range
+	}
 	m.WriteHeader()
 	if size == 2 {
 		// a header-only response (no attributes): distinct datagrams differ in the two leading type bits only
@@ -505,6 +532,11 @@ func cliResponseSized(slot int, variant int, size int) []byte {
 		if len(m.Raw) != 1024 {
 			panic("cliResponseSized: not 1024 bytes")
 		}
+	}
+	if size == 4 {
+		// the datagram carries 28 more bytes behind the message (padding of a lower layer, a second message): Decode
+		// tolerates them, the message is delivered
+		return append(append([]byte(nil), m.Raw...), bytes.Repeat([]byte{0x5A}, 28)...)
 	}
 	return append([]byte(nil), m.Raw...)
 }
@@ -540,6 +572,12 @@ func errClass(err error) string {
 	switch {
 	case err == nil:
 		return "nil"
+	case errors.Is(err, errInjAgentCloseSentinel) && err == errInjAgentCloseSentinel:
+		return "inj-agent-close"
+	case err == errInjConnCloseSentinel:
+		return "inj-conn-close"
+	case err == errInjectedWriteTimeout:
+		return "write-error"
 	case errors.Is(err, stun.ErrClientClosed):
 		return "ErrClientClosed"
 	case errors.Is(err, stun.ErrAgentClosed):
@@ -700,6 +738,10 @@ func (w *cliWorld) do(ev cliEv, quiesce bool) {
 	case "tick":
 		t := w.clock.now
 		switch ev.Arg {
+		case 5: // the last instant at which nothing may happen yet
+			if d, ok := w.agent.nextDeadline(); ok && d.Add(-time.Nanosecond).After(t) {
+				t = d.Add(-time.Nanosecond)
+			}
 		case 4: // the collector fires between deadlines (what the built-in ticker does most of the time)
 			if d, ok := w.agent.nextDeadline(); ok && d.After(t) {
 				t = t.Add(d.Sub(t) / 2)
@@ -747,6 +789,7 @@ func (w *cliWorld) do(ev cliEv, quiesce bool) {
 		w.conn.inbox = append(w.conn.inbox, []byte{0xEE, byte(ev.Arg)})
 	case "failwrite":
 		w.conn.failNext = true
+		w.conn.failKind = ev.Arg
 	case "failagent":
 		w.agent.failStart = true
 		w.agent.failKind = ev.Arg
@@ -780,7 +823,7 @@ func (w *cliWorld) do(ev cliEv, quiesce bool) {
 func runScenario(sc cliScenario) (*sched.Result, *cliWorld) {
 	w := &cliWorld{sc: sc, msgs: map[int]*stun.Message{}}
 	res := sched.Run(sched.Config{Prefix: sc.Prefix, PoolFanout: sc.Opts.PoolFanout, MapFanout: true, MaxSteps: 50000}, func() {
-		w.clock = &vClock{now: cliT0}
+		w.clock = &vClock{now: cliT0.Add(time.Duration(sc.Opts.ClockOffset))}
 		w.conn = &vConn{w: w, written: map[[12]byte]bool{}, idleTimeo: sc.Opts.NoConnClose}
 		w.coll = &vCollector{w: w}
 		w.agent = &vAgent{w: w, a: stun.NewAgent(nil), deadlines: map[[12]byte]time.Time{}}
